@@ -151,27 +151,21 @@ theorem json_proper_prefix_rejected (text : Str) (v : JVal) (h : loads (text ++ 
     (hk : k ≤ text.length) : loads ((text ++ [125]).take k) = .error .exc :=
   loads_proper_prefix text v h k hk
 
-/- Full statement of the truncation clause:
-     ∀ t (TocValid t) (TocWF t) k, k < (encodeText (printToc t)).length →
-       loadBytes ((encodeText (printToc t)).take k) = .error .exc
-   Proved below for every table whose COMPLETE file loads (by `load_eq_store`: every valid duplicate-free table without a
-   `__class__` key).  Missing: tables with a group/variable named `__class__` - their complete file is itself a miss
-   (`load_never_wrong`), and that their proper prefixes are misses too is validated by the correspondence (every offset of
-   such tables is run on the real code and the model) but not proved: the proof uses acceptance of the complete text. -/
-
-/-- **Truncation is a miss.**  Every proper prefix of the bytes `insert` writes for a table (that loads when complete)
-makes `json.load` raise. -/
-theorem truncation_is_miss_partial (t : Toc) (hv : TocValid t) (hwf : TocWF t) (hc : NoClassKey t) (k : Nat)
+/-- **Truncation is a miss.**  For EVERY table (a dict of dicts of elements with valid strings - also one with a group or
+variable called `__class__`) and every proper prefix of the bytes `insert` writes for it, `json.load` raises.
+(Complete text loads: prefix lemma.  Hook raises somewhere in it: shorter prefixes end inside a container, longer ones
+contain the raising `}`.) -/
+theorem truncation_is_miss (t : Toc) (hv : TocValid t) (hwf : TocWF t) (k : Nat)
     (hk : k < (encodeText (printToc t)).length) :
     loadBytes ((encodeText (printToc t)).take k) = .error .exc :=
-  loadBytes_truncated t (tocVal t) (load_eq_store t hv hwf hc) k hk
+  loadBytes_truncated_all t hv hwf k hk
 
 /-- ... hence `fetch` returns `None` when the file it hits is such a truncated file -/
 theorem truncated_file_is_miss (fs : FS) (c : Cache) (crc : Nat) (p : Path) (t : Toc) (hv : TocValid t) (hwf : TocWF t)
-    (hc : NoClassKey t) (k : Nat) (hk : k < (encodeText (printToc t)).length)
+    (k : Nat) (hk : k < (encodeText (printToc t)).length)
     (hh : findHit c.files (hex08 crc ++ dotJson) = some p) (hr : fs.read p = some ((encodeText (printToc t)).take k)) :
     c.fetch fs crc = .ok .null := by
-  rw [fetch_of_hit fs c crc p _ hh hr, truncation_is_miss_partial t hv hwf hc k hk]
+  rw [fetch_of_hit fs c crc p _ hh hr, truncation_is_miss t hv hwf k hk]
 
 /-- no matching cached path, or the matching file cannot be opened: `None` -/
 theorem missing_file_is_miss (fs : FS) (c : Cache) (crc : Nat) :
@@ -191,11 +185,11 @@ process builds a new `TocCache` over the same directories; provided no foreign f
 ending in the same pattern, `fetch` of that checksum is a miss. -/
 theorem crash_then_restart_is_miss (fs : FS) (c : Cache) (crc : Nat) (t : Toc) (k : Nat) (d : Path) (ro : Option Path)
     (hrw : c.rw = some d) (hw : fs.canWrite d = true) (hcrc : crc < 4294967296)
-    (hv : TocValid t) (hwf : TocWF t) (hc : NoClassKey t) (hk : k < (encodeText (printToc t)).length)
+    (hv : TocValid t) (hwf : TocWF t) (hk : k < (encodeText (printToc t)).length)
     (fs2 : FS) (c2 : Cache) (hinit : Cache.init (c.insertCut fs crc t k).1 ro (some d) = .ok (fs2, c2))
     (huniq : ∀ q ∈ glob (c.insertCut fs crc t k).1 d, endsWith q (hex08 crc ++ dotJson) = true → q = storedName d crc) :
     c2.fetch fs2 crc = .ok .null :=
-  crash_restart_aux fs c crc t k d ro hrw hw hcrc (tocVal t) (load_eq_store t hv hwf hc) hk fs2 c2 hinit huniq
+  crash_restart_aux fs c crc t k d ro hrw hw hcrc hv hwf hk fs2 c2 hinit huniq
 
 /-- **A miss is downloaded.**  When `fetch` returns something falsy (`None` for every case above, or an empty table) the
 fetcher requests element 0 (and with an empty device table stores `{}` and finishes) ... -/
